@@ -103,7 +103,7 @@ theorem scaleLoop_fw (cc : Ctx) (p : Nat) (hw : NCtx cc p) (hp4 : 4 ≤ p) (hp2 
         Bnd p s.toRat k.toRat n z.toRat → n < B ∧ StepOK p z k) :
     ∀ (fuel n : ℕ) (e : ED) (z : Dec), B < fuel + n → n ≤ B → EDg cc e → Pos z → (z = s ∨ ndigits z.coeff ≤ p) →
       Bnd p s.toRat k.toRat n z.toRat →
-      ∃ e' z' n', scaleLoop test k fuel e z n = some (e', z', n') ∧ EDg cc e' ∧ Pos z' ∧
+      ∃ e' z' n', scaleLoop test k fuel e z n = some (.inr (e', z', n')) ∧ EDg cc e' ∧ Pos z' ∧
         (z' = s ∨ ndigits z'.coeff ≤ p) ∧ n ≤ n' ∧ n' ≤ B ∧ Bnd p s.toRat k.toRat n' z'.toRat ∧ test z' = false ∧
         ((n' = n ∧ z' = z) ∨ ∃ zp, test zp = true ∧ Pos zp ∧ zp.toRat * k.toRat * (1 - eps p) ≤ z'.toRat ∧
           z'.toRat ≤ zp.toRat * k.toRat * (1 + eps p)) := by
@@ -118,6 +118,7 @@ theorem scaleLoop_fw (cc : Ctx) (p : Nat) (hw : NCtx cc p) (hp4 : 4 ≤ p) (hp2 
       obtain ⟨hlt, hok⟩ := hstep z n hz hd ht hb
       obtain ⟨g1, g2, g3, g4, g5, g6⟩ :=
         chain_step cc p hw hp4 hp2 k hk ke1 ke2 s.toRat hs.toRat_pos.le e z n he hz hb hok
+      rw [if_neg (by rw [g1.not_failed hw.ht]; exact Bool.false_ne_true)]
       obtain ⟨e', z', n', r1, r2, r3, r4, r5, r6, r7, r8, r9⟩ :=
         ih (n + 1) _ _ (by omega) (by omega) g1 g2 (Or.inr g3) g4
       refine ⟨e', z', n', r1, r2, r3, r4, by omega, r6, r7, r8, Or.inr ?_⟩
